@@ -16,7 +16,7 @@ CLAIMED = {
          "Trusted: Coq kernel; the hand model of the mutators (operation set listed in the evidence; since round 3 it includes extend, fiber-valued append/__setitem__ and fiber <<=; populate loops are run through C05's model with C01's oracle; fiber in-place arithmetic is C11's); harness. updateCoords is modelled for injective affine maps (documented domain).", TECH),
  "C03": ("Coq theorems for all well-formed states: getPayload returns the map's value and leaves the whole state unchanged, a prefix read returns the sub-fiber holding exactly the values under it, getPayloadRef(+write) changes the map at that point and at no other and keeps the tree well-formed, read-only accessors are pure, a legal start_pos never changes the position found, position lookup is the index of the coordinate. The replay-on-a-reference-map oracle is evaluated on the implementation's observations; that the model satisfies that oracle is checked per case, not proved (partial).",
          "Trusted: Coq kernel; hand model coq/Model/Store.v; harness. C03_model_meets_spec is not proved (stated as _partial in Properties/C03.v).", TECH),
- "C19": ("Coq theorems for all coordinate lists, nests and batchings: two-finger = merge comparison steps, skip-ahead = matches + maximal same-side runs, leader-follower = elements presented, totals independent of batching (no comparison spans two fibers), rows emitted by Fiber.__and__ = presented elements; swap-count proved per merge and per round loop for integer latency (tree-level and unbounded latency: partial, covered by oracle/correspondence). Oracle evaluated on the implementation's counts; model tied to /repo by differential comparison of trace rows and counts.",
+ "C19": ("Coq theorems for all coordinate lists, nests and batchings: two-finger = merge comparison steps, skip-ahead = matches + maximal same-side runs, leader-follower = elements presented, totals independent of batching (no comparison spans two fibers), rows emitted by Fiber.__and__ = presented elements; leader-follower STYLE intersections (Fiber.intersection style=leader-follower) count one attempt per presented leader element under every batching (C19_leader_follower_style, unconditional); swap-count proved per merge and per round loop for integer latency (tree-level and unbounded latency: partial, covered by oracle/correspondence). Oracle evaluated on the implementation's counts; model tied to /repo by differential comparison of trace rows and counts.",
          "Trusted: Coq kernel; hand models coq/Model/C19Intersect.v, C19Compute.v; harness. Swap-count clause partial (see Properties/C19.v).", TECH),
 }
 
